@@ -14,6 +14,7 @@ type VerifSnapshot struct {
 	ReaderSet    bool
 	BufferLen    int
 	RemoteShipID string
+	LastWaiting  int64 // lastReceivedWaitingValue in nanoseconds
 }
 
 func (c *ShipConnection) VerifSnapshot() VerifSnapshot {
@@ -34,6 +35,7 @@ func (c *ShipConnection) VerifSnapshot() VerifSnapshot {
 		ReaderSet:    c.dataReader != nil,
 		BufferLen:    bufLen,
 		RemoteShipID: c.remoteShipID,
+		LastWaiting:  int64(c.lastReceivedWaitingValue),
 	}
 }
 
